@@ -26,6 +26,7 @@ func BuildWorld(dir string, env []string, overlay map[string][]byte) *World {
 	p := LoadProgram(dir, env, overlay)
 	ts := NewTerms(p)
 	cg := BuildCallGraph(p)
+	ts.cg = cg
 	mr := BuildModRef(p, cg, ts)
 	fe := NewFactEngine(p, ts, cg, mr)
 	w := &World{P: p, TS: ts, CG: cg, MR: mr, FE: fe}
@@ -72,6 +73,10 @@ func main() {
 	start := time.Now()
 	if *dump != "" {
 		w := BuildWorld(*repo, nil, nil)
+		if strings.HasPrefix(*dump, "mod:") {
+			dumpModRef(w, strings.TrimPrefix(*dump, "mod:"))
+			return
+		}
 		dumpFunc(w, *dump)
 		return
 	}
@@ -198,4 +203,17 @@ func blockIdx(bs []*ssa.BasicBlock) []int {
 		out = append(out, b.Index)
 	}
 	return out
+}
+
+func dumpModRef(w *World, name string) {
+	for _, f := range w.P.ModFuncs {
+		if shortFuncName(f) != name {
+			continue
+		}
+		var m []string
+		for v := range w.MR.Mod[f] {
+			m = append(m, v.String())
+		}
+		fmt.Println("MOD", name, m)
+	}
 }
